@@ -710,6 +710,7 @@ def check_csv(ctx, produced):
     check_every_cell_has_row(ctx, bd)
     check_csv_tree_version(ctx)
     check_marker_table_follows_tree(ctx)
+    check_flag_is_per_level(ctx)
     from ..rules.idioms import check_shared_mutable
     n_sm = 0
     for fi_ in ctx.db.iter_functions():
@@ -1036,3 +1037,106 @@ def check_marker_table_follows_tree(ctx):
     if k == 0:
         raise AnalysisError('serialize_markers: no entry of the table is '
                             'stored')
+
+
+FLAG_WRITERS = {
+    'type_assignment.election_runner:run_type_assignment_on_h5ad':
+        ('voted', True),
+    'taxonomy.taxonomy_tree:TaxonomyTree.backfill_assignments':
+        ('inferred', False),
+    'utils.output_utils:hdf5_to_blob': ('read back', None),
+}
+
+
+def check_flag_is_per_level(ctx):
+    """the HDF5 output keeps ONE `directly_assigned` flag per level, taken
+    from the first cell, while JSON and CSV keep it per cell.  The formats
+    agree only if the flag cannot differ between the cells of a level: it
+    is written for every cell alike by the mapping front end (True for the
+    levels voted on) and by the back-fill (False for the inferred ones),
+    unconditionally, and by nobody else.  A further writer, or a
+    conditional / `setdefault` write, makes the flag a per-cell quantity
+    that the HDF5 file cannot represent."""
+    from ..core.guards import facts_at
+    db = ctx.db
+    rule = 'R-SAMEVAL/flag-per-level'
+    n = 0
+    for fi in db.iter_functions():
+        if fi.module.short.startswith(('gpu_utils',)):
+            continue
+        sites = []
+        for x in ast.walk(fi.node):
+            # record['directly_assigned'] = v
+            if isinstance(x, ast.Assign):
+                for tg in x.targets:
+                    if isinstance(tg, ast.Subscript) and isinstance(
+                            tg.slice, ast.Constant) \
+                            and tg.slice.value == 'directly_assigned':
+                        sites.append((x, x.value, 'store'))
+            # {'directly_assigned': v, ...}
+            if isinstance(x, ast.Dict):
+                for k, v in zip(x.keys, x.values):
+                    if isinstance(k, ast.Constant) \
+                            and k.value == 'directly_assigned':
+                        sites.append((x, v, 'literal'))
+            # record.setdefault('directly_assigned', v) / update(...)
+            if isinstance(x, ast.Call) and isinstance(
+                    x.func, ast.Attribute) and x.func.attr in (
+                        'setdefault',) and x.args and isinstance(
+                            x.args[0], ast.Constant) \
+                    and x.args[0].value == 'directly_assigned':
+                sites.append((x, x.args[1] if len(x.args) > 1 else None,
+                              'setdefault'))
+        for (node, val, how) in sites:
+            n += 1
+            known = FLAG_WRITERS.get(fi.qual)
+            ok = known is not None and how != 'setdefault'
+            why = ''
+            if known is None:
+                why = (f'{fi.qual} writes the flag; the only writers the '
+                       'per-level representation allows are the mapping '
+                       'front end (True) and the back-fill (False)')
+            elif how == 'setdefault':
+                why = ('the flag is written with setdefault: cells that '
+                       'already carry a value keep it, so the flag can '
+                       'differ between the cells of a level')
+            elif known[1] is not None:
+                const = isinstance(val, ast.Constant) \
+                    and val.value is known[1]
+                if not const:
+                    ok = False
+                    why = (f'the {known[0]} levels are not flagged with '
+                           f'the constant {known[1]}')
+                else:
+                    # not under a per-cell condition
+                    cfg = cfg_of(fi)
+                    rd = rd_of(fi)
+                    st = node
+                    while st is not None and not isinstance(st, ast.stmt):
+                        st = getattr(st, '_parent', None)
+                    ns = [q for q in cfg.nodes_of(st) if q.id in rd.live] \
+                        if st is not None else []
+                    if ns and known[0] == 'voted' and any(
+                            g.kind == 'if' for (g, _t, _tr) in facts_at(
+                                cfg, rd, ns[0].id)
+                            if _inside_loop_of(g.ast, st)):
+                        ok = False
+                        why = ('the voted levels are flagged under a '
+                               'condition inside the loop over the cells')
+            ctx.touch(fi)
+            ctx.ob(rule, f'{fi.qual}:{how}#{n - 1}', fi.loc(node), ok,
+                   'the flag is the same for every cell of a level' if ok
+                   else f'{why}: the HDF5 output, which stores one flag '
+                   'per level, then disagrees with the JSON output')
+    if n < 3:
+        raise AnalysisError(f'only {n} writers of directly_assigned found')
+
+
+def _inside_loop_of(test_stmt, st):
+    """the `if` sits inside the innermost loop that also contains st"""
+    p = getattr(st, '_parent', None)
+    while p is not None and not isinstance(p, (ast.For, ast.While)):
+        p = getattr(p, '_parent', None)
+    if p is None:
+        return False
+    return any(x is test_stmt for x in ast.walk(p))
